@@ -1,7 +1,248 @@
-//! Lane `faults` (stub).
+//! Lane `faults` (C04): for base exchanges, a connection failure of every kind injected at every
+//! byte offset of the response stream and of the request stream, plus unbind and dropping the
+//! last handle; nobody may hang, fully delivered responses survive, later operations fail at once.
 use crate::out::Out;
 use crate::rng::Rng;
+use crate::scen::*;
 
-pub fn run(_thorough: bool, _rng: Rng, out: Out) {
-    out.finish("stub lane: nothing generated yet");
+#[derive(Clone, Copy, Debug)]
+enum Fault {
+    Eof,
+    Reset,
+    Garbage,
+}
+
+struct Base {
+    ops: Vec<(OpKind, Option<u64>)>,
+    /// server frames: (id, op, good)
+    frames: Vec<(i64, u64, bool)>,
+}
+
+fn gen_base(rng: &mut Rng) -> Base {
+    let n = rng.range(1, 5) as usize;
+    let mut ops = vec![];
+    let mut frames = vec![];
+    for i in 0..n {
+        let id = i as i64 + 1;
+        if rng.chance(1, 2) {
+            ops.push((OpKind::Single, if rng.chance(1, 4) { Some(5000) } else { None }));
+            if rng.chance(3, 4) {
+                frames.push((id, *rng.pick(&[1u64, 7, 9, 11, 13, 15, 24]), true));
+            }
+        } else {
+            ops.push((OpKind::Search, None));
+            for _ in 0..rng.below(3) {
+                frames.push((id, *rng.pick(&[4u64, 19, 25]), false));
+            }
+            if rng.chance(1, 2) {
+                frames.push((id, 5, true));
+            }
+        }
+    }
+    // interleave frames of different operations, keeping per-id order
+    for _ in 0..frames.len() {
+        let a = rng.below(frames.len() as u64) as usize;
+        if a + 1 < frames.len() && frames[a].0 != frames[a + 1].0 {
+            frames.swap(a, a + 1);
+        }
+    }
+    Base { ops, frames }
+}
+
+/// script: issue everything, send the first `cut` bytes of the response stream, inject the fault
+fn script_resp_cut(b: &Base, cut: usize, fault: Fault, chunk: usize) -> (Vec<Step>, usize) {
+    let mut steps = vec![Step::MaxRead(chunk)];
+    for (k, t) in &b.ops {
+        steps.push(Step::Issue { kind: k.clone(), tmo_ms: *t });
+    }
+    steps.push(Step::Settle);
+    let mut off = 0usize;
+    let mut tok = 500u64;
+    let mut total = 0usize;
+    let mut mid = false;
+    for (id, op, good) in &b.frames {
+        tok += 1;
+        let bytes = frame_bytes(*id, *op, *good, tok);
+        total += bytes.len();
+        if off + bytes.len() <= cut {
+            steps.push(Step::Raw { bytes: bytes.clone(), log: format!("srv send {} {} {} {}", id, op, tok, if *good { 1 } else { 0 }) });
+        } else if off < cut {
+            steps.push(Step::Raw { bytes: bytes[..cut - off].to_vec(), log: String::new() });
+            mid = true;
+        }
+        off += bytes.len();
+    }
+    steps.push(Step::Settle);
+    for (i, (k, _)) in b.ops.iter().enumerate() {
+        if matches!(k, OpKind::Search) {
+            steps.push(Step::Next(i));
+        }
+    }
+    steps.push(Step::Settle);
+    match fault {
+        Fault::Eof => steps.push(if mid { Step::CloseMidFrame } else { Step::Close }),
+        Fault::Reset => steps.push(Step::Reset),
+        Fault::Garbage => {
+            if mid {
+                steps.push(Step::CloseMidFrame)
+            } else {
+                steps.push(Step::Garbage)
+            }
+        }
+    }
+    steps.push(Step::Settle);
+    // a later operation on the dead connection fails immediately
+    steps.push(Step::Issue { kind: OpKind::Single, tmo_ms: None });
+    steps.push(Step::Settle);
+    (steps, total)
+}
+
+fn judge(out: &mut Out, label: &str, o: &Outcome, n_ops: usize, expect_driver_end: bool) {
+    let ev = to_model_events(&o.trace);
+    out.m(&format!("conn.trace {}", ev), "accept");
+    let ended = o.trace.iter().any(|t| t.starts_with("drv result"));
+    if expect_driver_end {
+        out.r(&format!("faults.driver-ends {}", label), ended, &ev);
+    }
+    // every issued operation's future resolved; no stream left waiting
+    let done: std::collections::HashSet<String> = o.trace.iter().filter(|t| t.starts_with("cli done ")).map(|t| t.split(' ').nth(2).unwrap().to_string()).collect();
+    let issued = o.trace.iter().filter(|t| t.starts_with("cli issue ")).count();
+    out.r(&format!("faults.nobody-hangs {}", label), o.watchdog_stuck.is_empty() && done.len() == issued && issued >= n_ops, &format!("issued {} resolved {} stuck {:?} | {}", issued, done.len(), o.watchdog_stuck, ev));
+    // responses fully delivered before the fault are returned; the rest fail; nothing is fabricated
+    let mut delivered: std::collections::HashMap<String, String> = Default::default(); // id -> token (single results routed)
+    let mut id_of_op: std::collections::HashMap<String, String> = Default::default();
+    let mut opq: Vec<String> = vec![];
+    let mut toks: std::collections::HashMap<String, (String, String)> = Default::default(); // tok -> (id, op)
+    let mut resp_seen: Vec<String> = vec![];
+    let mut ok = true;
+    let mut why = String::new();
+    let mut after_end = false;
+    for t in &o.trace {
+        let w: Vec<&str> = t.split(' ').collect();
+        match (w[0], w.get(1).copied().unwrap_or("")) {
+            ("cli", "issue") => {
+                opq.push(w[2].to_string());
+                if after_end {
+                    id_of_op.insert(w[2].to_string(), String::from("dead"));
+                }
+            }
+            ("drv", "op") => {
+                if !opq.is_empty() {
+                    id_of_op.insert(opq.remove(0), w[2].to_string());
+                }
+            }
+            ("srv", "send") => {
+                toks.insert(w[4].to_string(), (w[2].to_string(), w[3].to_string()));
+            }
+            ("drv", "resp") => resp_seen.push(w[2].to_string()),
+            ("drv", "result") => after_end = true,
+            ("cli", "done") => {
+                let r = w[3];
+                if let Some(tok) = r.strip_prefix("frame:") {
+                    match toks.get(tok) {
+                        Some((id, _)) if Some(id) == id_of_op.get(w[2]) && resp_seen.contains(id) => {
+                            delivered.insert(id.clone(), tok.to_string());
+                        }
+                        _ => {
+                            ok = false;
+                            why = format!("op {} returned token {} that was not received for its ID", w[2], tok);
+                        }
+                    }
+                }
+                if id_of_op.get(w[2]).map(|s| s == "dead").unwrap_or(false) && r != "opsenderr" {
+                    ok = false;
+                    why = format!("operation issued after the driver ended returned {}", r);
+                }
+            }
+            _ => {}
+        }
+    }
+    out.r(&format!("faults.delivered-survive-rest-fail {}", label), ok, &format!("{} | {}", why, ev));
+}
+
+pub fn run(thorough: bool, mut rng: Rng, mut out: Out) {
+    let nbase = if thorough { 40 } else { 8 };
+    for bi in 0..nbase {
+        let b = gen_base(&mut rng);
+        let (_, total) = script_resp_cut(&b, 0, Fault::Eof, 0);
+        let step = if thorough { 1 } else { 1 + total / 40 };
+        let mut cut = 0;
+        while cut <= total {
+            for fault in [Fault::Eof, Fault::Reset, Fault::Garbage] {
+                let chunk = *rng.pick(&[0usize, 1, 3, 16]);
+                let (sc, _) = script_resp_cut(&b, cut, fault, chunk);
+                let o = run_script(&sc);
+                let label = format!("base#{} ops={} resp-cut={}/{} {:?} chunk={}", bi, b.ops.len(), cut, total, fault, chunk);
+                out.case(&label, true);
+                out.stat(&format!("fault.{:?}", fault));
+                judge(&mut out, &label, &o, b.ops.len(), true);
+            }
+            cut += step;
+        }
+        // write failures at every byte offset of the request stream
+        let mut sc0 = vec![];
+        for (k, t) in &b.ops {
+            sc0.push(Step::Issue { kind: k.clone(), tmo_ms: *t });
+        }
+        sc0.push(Step::Settle);
+        let o0 = run_script(&sc0);
+        let wtotal = o0.net.total_written();
+        let wstep = if thorough { 1 } else { 1 + wtotal / 25 };
+        let mut w = 0;
+        while w < wtotal {
+            let mut sc = vec![Step::FailWriteAt(w)];
+            sc.extend(sc0.clone());
+            sc.push(Step::Issue { kind: OpKind::Single, tmo_ms: None });
+            sc.push(Step::Settle);
+            let o = run_script(&sc);
+            let label = format!("base#{} ops={} write-fail-at={}/{}", bi, b.ops.len(), w, wtotal);
+            out.case(&label, true);
+            out.stat("fault.WriteFail");
+            judge(&mut out, &label, &o, b.ops.len(), true);
+            w += wstep;
+        }
+        // unbind at every script position; the server closes on unbind (RFC 4511 §4.3)
+        for pos in 0..=b.ops.len() {
+            let mut sc = vec![];
+            for (i, (k, t)) in b.ops.iter().enumerate() {
+                if i == pos {
+                    sc.push(Step::Issue { kind: OpKind::Unbind, tmo_ms: None });
+                    sc.push(Step::Settle);
+                }
+                sc.push(Step::Issue { kind: k.clone(), tmo_ms: *t });
+            }
+            if pos == b.ops.len() {
+                sc.push(Step::Issue { kind: OpKind::Unbind, tmo_ms: None });
+            }
+            sc.push(Step::Settle);
+            sc.push(Step::Close);
+            sc.push(Step::Settle);
+            let o = run_script(&sc);
+            let label = format!("base#{} ops={} unbind-at={}", bi, b.ops.len(), pos);
+            out.case(&label, true);
+            out.stat("fault.Unbind");
+            judge(&mut out, &label, &o, b.ops.len() + 1, true);
+            out.r(&format!("faults.unbind-closes-transport {}", label), o.net.is_shutdown() && o.net.is_dropped(), "write side not shut down / transport not dropped");
+        }
+        // dropping the last handle when nothing is pending ends the driver and drops the transport
+        let mut sc = vec![];
+        for (i, (k, t)) in b.ops.iter().enumerate() {
+            if matches!(k, OpKind::Single) {
+                sc.push(Step::Issue { kind: k.clone(), tmo_ms: *t });
+                sc.push(Step::Settle);
+                sc.push(Step::Send { id: sc.iter().filter(|s| matches!(s, Step::Issue { .. })).count() as i64, op: 11, good: true });
+                sc.push(Step::Settle);
+            }
+            let _ = i;
+        }
+        sc.push(Step::DropHandles);
+        sc.push(Step::Settle);
+        let o = run_script(&sc);
+        let label = format!("base#{} drop-last-handle", bi);
+        out.case(&label, true);
+        out.stat("fault.DropHandles");
+        judge(&mut out, &label, &o, 0, true);
+        out.r(&format!("faults.drop-closes-transport {}", label), o.net.is_dropped(), "transport not dropped");
+    }
+    out.finish("base exchanges of 1..4 concurrent operations (single-result with/without timeout, searches mid-stream); EOF / reset / undecodable bytes injected at byte offsets of the response stream (every offset in thorough, ~40 offsets per exchange in quick) under read chunk sizes {all,1,3,16}; write failure at byte offsets of the request stream; unbind at every script position; drop of the last handle; virtual-time watchdog; non-trivial = all; distinct by label");
 }
